@@ -4,6 +4,7 @@ package main
 // Passive-form execution over the loop-cut CFG, states merged with ite.
 
 import (
+	"os"
 	"fmt"
 	"go/constant"
 	"go/token"
@@ -147,10 +148,18 @@ type Obligation struct {
 	Fn      string
 	nAssume int
 	goal    *Term
+	guard   *Term // path condition of the obligation (nil: unknown)
 	IsCover bool
 }
 
 type Exec struct {
+	selectPred int         // >= 0: keep only this incoming edge of the selected return block
+	retPreds   map[int]int // return ordinal -> number of live incoming edges
+	retSeen    int
+	splitTerm     *Term
+	splitExcluded map[uint64]bool
+	combo []caseChoice
+	pins  map[*Term]*Term // loop split: term -> the constant it is fixed to in this run
 	// panic mode (contract clause `panics P(args)`): a violated safety
 	// condition, a call into unknown code or an explicit panic is allowed, but
 	// only in a state satisfying P; execution continues on the other paths
@@ -220,7 +229,7 @@ type modEntry struct {
 
 func NewExec(eng *Engine) *Exec {
 	return &Exec{w: NewWorld(), prog: eng.prog, eng: eng, compSort: map[string]Sort{},
-		assumeID: map[int]bool{}, oblNames: map[string]int{}, notes: map[string]bool{}, inlineMax: 8, modCache: map[*ssa.Function]modset{}, selectReturn: -1}
+		assumeID: map[int]bool{}, oblNames: map[string]int{}, notes: map[string]bool{}, inlineMax: 8, modCache: map[*ssa.Function]modset{}, selectReturn: -1, selectPred: -1}
 }
 
 func (x *Exec) note(format string, a ...any) { x.notes[fmt.Sprintf(format, a...)] = true }
@@ -269,7 +278,7 @@ func (x *Exec) oblige(st *State, kind, detail string, cond *Term, pos token.Pos)
 		name = fmt.Sprintf("%s#%d", base, n)
 	}
 	name += x.caseTag
-	x.obls = append(x.obls, &Obligation{Name: name, Kind: kind, Pos: x.position(pos), Fn: fn, nAssume: len(x.assumes), goal: goal})
+	x.obls = append(x.obls, &Obligation{Name: name, Kind: kind, Pos: x.position(pos), Fn: fn, nAssume: len(x.assumes), goal: goal, guard: st.guard})
 	// after the check, execution continues only if it held
 	x.assume(goal)
 }
@@ -312,6 +321,14 @@ func (x *Exec) panicPoint(st *State, pos token.Pos, detail string, cond *Term) {
 		return
 	}
 	p := x.evalPanicPred(st)
+	if os.Getenv("GOVC_PDEBUG") != "" && !x.panicKnown[p.id] {
+		var names []string
+		for n := range collectLeaves([]*Term{p}) {
+			names = append(names, n)
+		}
+		sort.Strings(names)
+		fmt.Fprintf(os.Stderr, "PDEBUG %s: P#%d leaves %v\n", detail, p.id, names)
+	}
 	if !x.panicKnown[p.id] && !p.isTrue() {
 		goal := p
 		if cond != nil {
@@ -1069,6 +1086,20 @@ func (x *Exec) callFunction(fn *ssa.Function, args []Value, bindings []Value, st
 			if len(inStates) == 0 {
 				continue // unreachable
 			}
+			if isTargetCall && x.target.SplitPreds && !x.target.SplitPaths {
+				if _, isRet := b.Instrs[len(b.Instrs)-1].(*ssa.Return); isRet {
+					if x.retPreds == nil {
+						x.retPreds = map[int]int{}
+					}
+					x.retPreds[x.retSeen] = len(inStates)
+					if x.retSeen == x.selectReturn && x.selectPred >= 0 && x.selectPred < len(inStates) {
+						k := x.selectPred
+						inConds, inRels, inStates, inPreds = inConds[k:k+1], inRels[k:k+1], inStates[k:k+1], inPreds[k:k+1]
+						fr.narrowed = true
+					}
+					x.retSeen++
+				}
+			}
 			st0 = x.mergeStatesRel(inConds, inRels, inStates)
 			rel[b] = ts.Or(inRels...)
 		}
@@ -1115,6 +1146,19 @@ func (x *Exec) callFunction(fn *ssa.Function, args []Value, bindings []Value, st
 			switch in := ins.(type) {
 			case *ssa.If:
 				c := x.term(fr, in.Cond)
+				if len(x.pins) > 0 {
+					c = x.w.ts.Replace(c, x.pins)
+				}
+				if x.splitTerm != nil && c.kind == kApp && c.op == "=" && len(c.args) == 2 {
+					for k := 0; k < 2; k++ {
+						if c.args[k] == x.splitTerm {
+							if v, ok := c.args[1-k].bvConst(); ok && x.splitExcluded[v] {
+								c = x.w.ts.False()
+							}
+							break
+						}
+					}
+				}
 				edgeCond[[2]int{b.Index, b.Succs[0].Index}] = ts.And(st0.guard, c)
 				edgeCond[[2]int{b.Index, b.Succs[1].Index}] = ts.And(st0.guard, ts.Not(c))
 				edgeRel[[2]int{b.Index, b.Succs[0].Index}] = ts.And(rel[b], c)
